@@ -293,6 +293,8 @@ pub fn parse_file_internal(context: &ParseContext) -> Result<(), Error> {
 pub enum NextItem {
     NewLine,
     EndIf,
+    /// skip the rest of a conditional chain, whatever .elif/.else it still has
+    EndIfChain,
     EndMacro,
     EndFile,
 }
@@ -301,8 +303,11 @@ fn skip<'a>(
     iter: &mut dyn Iterator<Item = (usize, &'a str)>,
     context: &ParseContext,
     ni: NextItem,
+    // set when the returned line is the .elif that ended the search for a branch
+    pending_elif: &mut bool,
 ) -> Option<(usize, &'a str)> {
     let mut scoup_count = 0;
+    *pending_elif = false;
     match ni {
         NextItem::NewLine => iter.next(),
         NextItem::EndFile => None,
@@ -333,6 +338,20 @@ fn skip<'a>(
                     crate::verif::step();
                     if let Ok(item) = document::line(line) {
                         if let Document::DirectiveLine(_, directive, _) = item {
+                            if other == NextItem::EndIfChain {
+                                if directive == Directive::If
+                                    || directive == Directive::IfDef
+                                    || directive == Directive::IfNDef
+                                {
+                                    scoup_count += 1;
+                                } else if directive == Directive::Endif {
+                                    if scoup_count == 0 {
+                                        ret = iter.next();
+                                        break;
+                                    }
+                                    scoup_count -= 1;
+                                }
+                            }
                             if other == NextItem::EndIf {
                                 if directive == Directive::If
                                     || directive == Directive::IfDef
@@ -345,6 +364,7 @@ fn skip<'a>(
                                 {
                                     if scoup_count == 0 {
                                         ret = if directive == Directive::ElIf {
+                                            *pending_elif = true;
                                             Some((num, line))
                                         } else {
                                             iter.next()
@@ -378,8 +398,10 @@ pub fn parse_iter<'a>(
 ) -> Result<(), Error> {
     let mut next_item = NextItem::NewLine;
 
+    let mut pending_elif = false;
+
     loop {
-        if let Some((line_num, line)) = skip(iter, context, next_item) {
+        if let Some((line_num, line)) = skip(iter, context, next_item, &mut pending_elif) {
             next_item = NextItem::NewLine; // clear conditional flag to typical state
             let line_num = line_num + 1;
             #[cfg(feature = "verif")]
@@ -413,7 +435,12 @@ pub fn parse_iter<'a>(
                                 ));
                             }
                         }
-                        let item = d.parse(&d_op_args, &context, CodePoint { line_num, num: 2 })?;
+                        let item = if d == Directive::ElIf && !pending_elif {
+                            // the branch before this .elif was assembled, so no later one may be
+                            NextItem::EndIfChain
+                        } else {
+                            d.parse(&d_op_args, &context, CodePoint { line_num, num: 2 })?
+                        };
                         next_item = item;
                     }
                     Document::EmptyLine => {}
